@@ -97,8 +97,38 @@ pub fn check(sc: &Scenario, ex: &mut Exec) -> (Verdict, Option<String>) {
                         );
                         if let Ok((rs, _)) = ex.query(&mut e2, "rows_per_unit", &rows_sql, &plan) {
                             let r_max = rs.rows.iter().filter_map(|r| num(&r[1])).fold(0.0, f64::max);
+                            let n_rows: f64 = rs.rows.iter().filter_map(|r| num(&r[1])).sum();
                             within_allowed_multiplicity = r_max <= m_est;
                             ex.log.push(format!("multiplicity allowed={} max_rows_per_unit={}", m_est, r_max));
+                            // the multiplicity the bound allows is the parameters' (at least
+                            // min(max multiplicity, share x rows): declared sizes are upper bounds
+                            // of the row counts) unless the unit is unique in the aggregation
+                            // input - which the data (consistent with every declared constraint
+                            // in this profile) refute as soon as one unit has two rows there
+                            let granted = sc.params.max_mult.min(n_rows * sc.params.max_mult_share);
+                            // ... provided the instance honours every declared UNIQUE (shared
+                            // unit names under a column declared UNIQUE do not)
+                            let unique_honoured = sc.tables.iter().all(|t| {
+                                t.cols.iter().enumerate().filter(|(_, c)| c.unique).all(|(i, _)| {
+                                    let mut seen = std::collections::BTreeSet::new();
+                                    t.rows.iter().filter(|r| !r[i].is_null()).all(|r| seen.insert(r[i].key()))
+                                })
+                            });
+                            if unique_honoured && m_est + 1e-9 < granted.min(r_max) {
+                                return (
+                                    Verdict::Violations(vec![Violation {
+                                        property: "C09".into(),
+                                        invariant: "multiplicity_below_parameters".into(),
+                                        class: "unclassified".into(),
+                                        detail: format!(
+                                            "the clipping bound allows {} row(s) per privacy unit although the parameters grant min({}, {} x {} rows) and a unit has {} rows in the aggregation input: the unit was taken for unique where it is not, and in-range rows within the granted multiplicity are clipped",
+                                            m_est, sc.params.max_mult, sc.params.max_mult_share, n_rows, r_max
+                                        ),
+                                        witness: json!({"allowed_by_bound": m_est, "max_multiplicity": sc.params.max_mult, "max_multiplicity_share": sc.params.max_mult_share, "rows": n_rows, "max_rows_per_unit": r_max}),
+                                    }]),
+                                    Some(shape_of(sc, "multiplicity")),
+                                );
+                            }
                         }
                     }
                 }
